@@ -823,7 +823,7 @@ structure ReqVerdict where
   logged : Bool
   reqid : Option String
 
-def judge (cfg : Cfg) (items : List RItem) (rq out : Json) : ReqVerdict :=
+def judge (cfg : Cfg) (gz : Bool) (items : List RItem) (rq out : Json) : ReqVerdict :=
   let format := items.flatMap itemSrc
   let names : List Bytes := (items.filter (·.kind == "header")).map fun it => canonKey true (utf8 (String.ofList it.v))
   let r := reqOf rq
@@ -836,7 +836,11 @@ def judge (cfg : Cfg) (items : List RItem) (rq out : Json) : ReqVerdict :=
   let evJ := fld out "ev"
   let lines : List String := ((out.getObjValAs? (Array String) "lines").toOption.getD #[]).toList
   -- model
-  let served := serve cfg r tg (utf8 seenId) up
+  -- with the gzip handler in the chain the body the client connection gets is the compressed one: its length is
+  -- not modelled, the event must carry whatever the connection accepted (checked below on the observation)
+  let served := match serve cfg r tg (utf8 seenId) up with
+    | .logged e => .logged (if gz then { e with size := natAt (fld out "client") "body" } else e)
+    | s => s
   let (mEv, mLines) : Json × List String := match served with
     | .logged e =>
       let ev := toEvent e (viewOf e.requestURL) (viewOf e.upstreamURL) env
@@ -878,26 +882,24 @@ def judge (cfg : Cfg) (items : List RItem) (rq out : Json) : ReqVerdict :=
   if aborted != (isCut && called) then mk false (if aborted then "aborted-without-cause" else "cut-response-delivered-as-complete") else
   if aborted then
     let partOk := boolAt out "twin_same" && natAt client "extra" == 0 && (match up with
-      | .cut info st chunks => cStatus == st && natList client "infos" == info && natAt client "body" == chunks.sum
+      | .cut info st chunks => cStatus == st && natList client "infos" == info && (gz || natAt client "body" == chunks.sum)
       | _ => false)
     mk partOk (if partOk then "upstream-cut-aborted" else "client-did-not-get-upstream-response") else
   if called != !evJ.isNull then mk false (if called then "upstream-request-not-logged" else "logged-without-upstream") else
   if !boolAt out "twin_same" then mk false "response-differs-without-logger" else
   -- the response: what the upstream said is what the client got
   let transOk := !called || (natAt client "extra" == 0 && match up with
-    | .response info st chunks => cStatus == st && natList client "infos" == info && natAt client "body" == chunks.sum
-    | .cut info st chunks => cStatus == st && natList client "infos" == info && natAt client "body" == chunks.sum
+    | .response info st chunks => cStatus == st && natList client "infos" == info && (gz || natAt client "body" == chunks.sum)
+    | .cut info st chunks => cStatus == st && natList client "infos" == info && (gz || natAt client "body" == chunks.sum)
     | .error e => cStatus == errStatus e && natAt client "body" == 0)
   if !transOk then mk false "client-did-not-get-upstream-response" else
   -- headers that go through the formatters
   let stsJ := fld client "sts"
-  -- (a relayed informational response makes the reverse proxy clear the header map: the header is then absent,
-  -- which is not a statement of this property; when it is there it must be right)
-  let relayed1xx := match up with | .response (_ :: _) _ _ => true | .cut (_ :: _) _ _ => true | _ => false
+  -- (the header must be there after a relayed informational response as well: 3162882)
   let stsWanted := r.tls.isSome && cfg.stsMaxAge > 0 && called
   let stsGood := match stsJ.getStr? with
     | .ok v => stsWanted && stsOk cfg v
-    | .error _ => !stsWanted || relayed1xx
+    | .error _ => !stsWanted
   if !stsGood then mk false "sts-max-age" else
   let fwdGood := match r.tls with
     | some t => !called || (strOf upJ "fwd").endsWith (fwdSuffix t)
@@ -941,7 +943,7 @@ def judge (cfg : Cfg) (items : List RItem) (rq out : Json) : ReqVerdict :=
   if strOf uj "str" != strOf seenURL "str" then
     mk false (if r.url.forceQuery && (urlOfText seenURL).rawQuery == [] then "upstream-url-empty-query" else "upstream-url-differs") else
   mk true (match up with
-    | .response info _ _ => if info.isEmpty then "logged" else "logged-after-informational"
+    | .response info _ _ => if gz then "logged-gzip-configured" else if info.isEmpty then "logged" else "logged-after-informational"
     | .cut .. => "upstream-cut"
     | .error _ => "upstream-error")
 
@@ -967,7 +969,7 @@ def serveH : Handler := fun inp impl => do
     return ({ model := Json.mkObj [("new_err", mErr)], agree := mErr, spec := !wellSeparated items || mErr, nontrivial := false, tag := "new-error" } : Verdict).toJson
   let outs := ((impl.getObjValAs? (Array Json) "reqs").toOption.getD #[]).toList
   if outs.length != reqs.length then throw "impl: wrong number of requests"
-  let vs := (reqs.zip outs).map fun (rq, out) => S.judge cfg items rq out
+  let vs := (reqs.zip outs).map fun (rq, out) => S.judge cfg (S.boolAt cfgJ "gzip") items rq out
   let model := Json.mkObj [("reqs", Json.arr (vs.map (·.model)).toArray)]
   let implV := Json.mkObj [("reqs", Json.arr (vs.map (·.implView)).toArray)]
   let ids := vs.filterMap (·.reqid)
